@@ -279,7 +279,6 @@ def check(repo, rep, tier):
   check_views(repo, rep, 'C01')
   # symmetry: neither point of a pair is converted to the other's dtype
   from . import c06b
-  c06b.rule_no_cross_dtype_cast(repo, rep)
   c06b.rule_pair_distance_covers(repo, rep)
   # exact symmetry also for integer query points: x - x' is not computed in
   # an unsigned / narrow dtype
